@@ -2,7 +2,7 @@
 import numpy as np
 
 from pymbolic.mapper.stringifier import (
-    PREC_CALL, PREC_LOGICAL_OR, PREC_NONE, PREC_PRODUCT, StringifyMapper)
+    PREC_CALL, PREC_LOGICAL_OR, PREC_NONE, PREC_POWER, PREC_PRODUCT, StringifyMapper)
 
 
 __copyright__ = "Copyright (C) 2014 Matt Wala"
@@ -28,9 +28,20 @@ THE SOFTWARE.
 """
 
 
+class _PowerPrintingMixin:
+    def map_power(self, expr, enclosing_prec, *args, **kwargs):
+        # "**" associates to the right in both target languages, so a power
+        # that occurs as the base of another power needs parentheses.
+        return self.parenthesize_if_needed(
+                self.format("%s**%s",
+                    self.rec(expr.base, PREC_POWER + 1, *args, **kwargs),
+                    self.rec(expr.exponent, PREC_POWER, *args, **kwargs)),
+                enclosing_prec, PREC_POWER)
+
+
 # {{{ fortran
 
-class FortranExpressionMapper(StringifyMapper):
+class FortranExpressionMapper(_PowerPrintingMixin, StringifyMapper):
     """Converts expressions to Fortran code."""
 
     def __init__(self, name_manager):
@@ -145,7 +156,7 @@ class FortranExpressionMapper(StringifyMapper):
 
 # {{{ python
 
-class PythonExpressionMapper(StringifyMapper):
+class PythonExpressionMapper(_PowerPrintingMixin, StringifyMapper):
     """Converts expressions to Python code."""
 
     def __init__(self, name_manager, function_registry,
